@@ -163,3 +163,30 @@ Theorem C16_pmtiles_header_accepts : forall l h, pmh_deserialize l = Ok h ->
   length l = 127%nat /\ firstn 8 l = pm_magic /\ (p_icomp h <= 4 /\ p_tcomp h <= 4 /\ p_type h <= 5)%N.
 Proof. exact pmh_accepts. Qed.
 Print Assumptions C16_pmtiles_header_accepts.
+
+(* ---- versatiles, a whole file from ANY encoder: valid by the published layout means - the first 66
+   bytes parse as a header; the block-index range, decompressed, is a sequence of 33-byte block
+   definitions with distinct block coordinates; each block's index range, decompressed, holds one
+   12-byte entry per coordinate of the block's coverage, and every non-empty entry names bytes inside
+   the file.  Nothing is said about the order of the sections, padding between them or ranges shared
+   by several entries.  The reader then answers every lookup with exactly the bytes the entry of the
+   coordinate's slot names, and with nothing for empty slots, uncovered coordinates and unlisted blocks *)
+From Coq Require Import Bool.
+From VT Require Import Model.Crash Model.VTFile Proofs.VTFileProofs.
+Local Open Scope bool_scope.
+Theorem C16_versatiles_any_encoder :
+  forall (unb : list N -> option (list N)) file h bs idx_of z x y,
+    file_valid unb file h bs idx_of -> (z <= 31)%N ->
+    vt_file_lookup unb file z x y =
+      Ok (match find (fun b => (bd_z b =? z) && (bd_x b =? x / 256) && (bd_y b =? y / 256))%N bs with
+          | None => None
+          | Some b =>
+              if ((bd_gx0 b <=? x) && (x <=? bd_gx1 b) && (bd_gy0 b <=? y) && (y <=? bd_gy1 b))%N then
+                match nth_error (idx_of b) (N.to_nat ((y - bd_gy0 b) * (bd_gx1 b - bd_gx0 b + 1) + (x - bd_gx0 b))) with
+                | Some (o, l) => if (l =? 0)%N then None else Some (Crash.sub file (N.to_nat (o + bd_toff b)) (N.to_nat l))
+                | None => None
+                end
+              else None
+          end).
+Proof. exact vt_valid_file_lookup. Qed.
+Print Assumptions C16_versatiles_any_encoder.
